@@ -201,11 +201,16 @@ func structKey(cat string, ex *expectation) string {
 func countExpectation(r *lib.Run, ex *expectation) {
 	for _, e := range ex.entries {
 		d := e.desc
+		if i := strings.IndexByte(d, '+'); i >= 0 {
+			for _, soft := range strings.Split(d[i+1:], "+") {
+				r.Count("requests.latitude."+soft, 1)
+			}
+			d = d[:i]
+		}
 		if i := strings.Index(d, ":valid:"); i >= 0 {
 			r.Count("requests.valid-call."+d[i+7:], 1)
-			d = d[:i+6]
 		}
-		r.Count("requests."+d, 1)
+		r.Count("requests."+baseDesc(d), 1)
 	}
 }
 
@@ -214,7 +219,8 @@ func checkInput(r *lib.Run, idx int, cat string, in []byte, pool int, sample boo
 	ex := classify(in)
 	s := getSrv(pool)
 	healthy := true
-	for _, tr := range transports {
+	// every input goes through HandleReader and one of the three wrapping transports
+	for _, tr := range []string{transports[0], transports[1+idx%3]} {
 		e, hung := execute(s, tr, in)
 		r.Eval(1)
 		r.Count("executions."+tr, 1)
@@ -311,7 +317,7 @@ func concurrentCase(r *lib.Run, idx int) {
 					req = g.request(g.p(75))
 					cx := classify([]byte(req))
 					d := firstDesc(&cx)
-					if !strings.Contains(d, "ping") && !strings.Contains(d, "allopt") && cx.lenient == "" &&
+					if !strings.Contains(d, "ping") && !strings.Contains(d, "allopt") && d != "ambiguous-envelope" && len(cx.entries[0].unsure) == 0 &&
 						sw == g.feats["params:swapped"] && ds == g.feats["params:decoder-specific"] {
 						break
 					}
@@ -556,7 +562,7 @@ func TestC11(t *testing.T) {
 	if err := selfTest(); err != nil {
 		t.Fatalf("oracle self-test failed (harness broken): %v", err)
 	}
-	n := r.N(50000, 1500000)
+	n := r.N(50000, 600000)
 	t0 := time.Now()
 	var featMu sync.Mutex
 	feats := map[string]int{}
@@ -594,13 +600,13 @@ func TestC11(t *testing.T) {
 	r.Assume("latitude accepted: single-request envelope decode failures may be -32700 or -32600; id:null may be answered or treated as a notification; " +
 		"fractional/exponent ids, params:null, unknown envelope members and an empty method name may be rejected with -32600; trailing bytes after the first value may be ignored or rejected; " +
 		"error responses to invalid requests may carry the request id or null")
-	r.Assume("inputs whose binding is decoder-specific (duplicate or case-variant keys, null into non-pointer parameters, 1.0 for an integer, unknown struct fields, integers beyond 2^53 in untyped parameters) " +
-		"are checked for well-formed, correctly-shaped output and bounded counts only (counters inputs.lenient-oracle.*)")
+	r.Assume("requests whose reading is decoder-specific are judged per request against every consistent reading: duplicate / case-variant envelope keys = {exact, case-folded} x {first, last wins}; " +
+		"parameters such as null into a non-pointer, 1.0 for an integer, unknown struct fields, duplicate names, integers beyond 2^53 in untyped parameters = either -32602 or an invocation whose recorded arguments the response echoes under the request's id")
 	r.Assume("the only wall-clock verdict: a request not answered within 60 s is reported as a hang")
 	r.Finish("case = one generated input (grammar over jsonrpc/method/params/id presence and type, ids of every JSON type, positional/named/optional binding, batches mixing valid, invalid, "+
-		"notification and non-object entries, byte-level mutations, arbitrary bytes, deep nesting, huge numbers) sent through HandleReader, HandleReadWriter, HTTP and HTTP+gzip on a server with a "+
+		"notification and non-object entries, byte-level mutations, arbitrary bytes, deep nesting, huge numbers) sent through HandleReader and one of HandleReadWriter / HTTP / HTTP+gzip (rotating) on a server with a "+
 		"1..16-worker pool and 16 recording handlers, plus websocket messages over loopback and rounds of concurrent batches on one shared server; an independent classifier derives per request the acceptable "+
 		"responses {id, result echo | error code} and the required handler invocation; the monitor requires: no panic/hang, empty output iff nothing must be answered, otherwise well-formed JSON-RPC 2.0 "+
 		"(object for single, array for batch, version, id member, exactly one of result/error), and a one-to-one assignment of responses and recorded invocations (with exact arguments) to requests; "+
-		"distinct = distinct (category, container, multiset of request kinds)", 300)
+		"distinct = distinct (category, container, multiset of request kinds)", 500)
 }
